@@ -58,6 +58,8 @@ pub struct Record {
     pub packed: bool,
     pub aligned: Option<u32>,
     pub pragma_pack: Option<u32>,
+    /// an attribute without layout effect that libclang does not expose (`deprecated`, `unused`, `may_alias`)
+    pub extra_attr: Option<&'static str>,
 }
 
 #[derive(Clone, Debug)]
@@ -162,6 +164,7 @@ fn attrs(r: &Record) -> String {
     let mut v = vec![];
     if r.packed { v.push("packed".to_string()); }
     if let Some(n) = r.aligned { v.push(format!("aligned({n})")); }
+    if let Some(a) = r.extra_attr { v.push(a.to_string()); }
     if v.is_empty() { String::new() } else { format!(" __attribute__(({}))", v.join(", ")) }
 }
 
@@ -317,7 +320,8 @@ impl Gen<'_> {
         } else {
             (self.fresh("R"), String::new())
         };
-        Record { is_union, tag, typedef_name, members, packed, aligned, pragma_pack }
+        let extra_attr = if !anonymous && self.rng.chance(1, 8) { Some(*self.rng.pick(&["deprecated", "unused", "may_alias", "deprecated(\"old\")"])) } else { None };
+        Record { is_union, tag, typedef_name, members, packed, aligned, pragma_pack, extra_attr }
     }
 
     /// a struct under `#pragma pack(N)` in which every sized member already fits N: the only
@@ -342,7 +346,7 @@ impl Gen<'_> {
             _ => {}
         }
         let (tag, typedef_name) = if self.rng.chance(1, 5) { (String::new(), self.fresh("T")) } else { (self.fresh("R"), String::new()) };
-        Record { is_union: false, tag, typedef_name, members, packed: false, aligned: None, pragma_pack: Some(n) }
+        Record { is_union: false, tag, typedef_name, members, packed: false, aligned: None, pragma_pack: Some(n), extra_attr: None }
     }
 
     fn enum_decl(&mut self) -> EnumD {
